@@ -782,4 +782,39 @@ def gmorObs (g : Nat) : Nat × Nat × Bool :=
   (vals.eraseDups.length, (if (s.map 1).isSome then 1 else 0),
    vals.length == g && vals.all fun v => s.map 1 == some v)
 
+/-! ## 6. sixth round: names that differ only in letter case; the closing phase under the built-in logger
+
+    (a) `closec`: which registered components get a definition. The scan gives every registered component its definition
+        through `DefinitionRegistry.GetMetaOrRegister(name, component)` — ONE `metaMaps.LoadOrStoreFn(name, build)`
+        (container/support/component_definition_registry.go:43-50): the map is keyed by the component name ITSELF, like the
+        singleton registry that accepted the component (singleton_registry.go:52-60 rejects an EQUAL name only). A component
+        whose key is already taken is handed the definition that is there and never gets one of its own: it is not created
+        through a definition, not offered to `App.CloserComponents`, not closed. `definedNames key names` = the registered
+        names (in any processing order: the scans run in parallel) that get a definition of their own when the map is
+        keyed by `key name`. The code's key is the name itself; names that differ only in letter case are different keys.
+    (b) `closeb`: a failing closer's goroutine reports through `syslog.Pref("Application")` — one logger object shared by
+        all goroutines of Close. The built-in logger (syslog/logger.go:118-142) builds the line in locals of the call and
+        hands it to a `log.Logger`, whose output is serialised by its own mutex: the report is the step `called → post` of
+        section 5, with no variable shared between the goroutines (`crit = false`), and it is complete exactly when the
+        worker is past that step (`reported`). -/
+
+/-- names that get a definition of their own; `seen` = the keys already taken (α: names, κ: keys of the registry's map) -/
+def definedFrom {α κ : Type} [DecidableEq κ] (key : α → κ) : List κ → List α → List α
+  | _, [] => []
+  | seen, x :: xs => if key x ∈ seen then definedFrom key seen xs else x :: definedFrom key (key x :: seen) xs
+
+def definedNames {α κ : Type} [DecidableEq κ] (key : α → κ) (names : List α) : List α :=
+  definedFrom key [] names
+
+/-- a key that forgets the letter case (what the code does NOT use); names as character lists -/
+def foldCase (s : List Char) : List Char := s.map Char.toLower
+
+def caseSpellings : List String := ["orders", "Orders", "ORDERS", "oRDERS"]
+
+/-- the component names of a `closec` scenario: n ordinary closers and, for group j with c members, c spellings of one
+    word (the harness's words differ per kind; what matters is: equal up to letter case, pairwise different) -/
+def caseNames (n : Nat) (counts : List Nat) : List String :=
+  (List.range n).map (fun i => "vc" ++ toString i) ++
+  ((List.range counts.length).zip counts).flatMap fun jc => (caseSpellings.take jc.2).map fun w => toString jc.1 ++ "/" ++ w
+
 end Ioc.Conc
